@@ -605,3 +605,67 @@ class CallerValuesUntouched(Contract):
 
 
 CONTRACTS = CONTRACTS + [CallerValuesUntouched]
+
+
+class RefusedCreationsLeaveNothing(Contract):
+    """A value array that is refused at creation (more entries than the geometry has, vertices of the
+    wrong shape) is rejected as a whole: no half-built data or object stays among its parent's
+    children, and nothing of it reaches the file."""
+    target = "geoh5py/shared/entity.py::Entity.__init__"
+    variant = "refused-creations"
+    symbolic = False
+    has_native = True
+    props = ("C08", "C07")
+    bounded_scope = "a point cloud / a curve (5 vertices) in a group; add_data with 9 vertex values, 9 cell values, text of 9 entries; an object created under the group with vertices of shape (3, 2); the parent's children before and after the refusal, and after a re-open (exhaustive)"
+
+    def native_cases(self, tier, rng):
+        for kind in ("points", "curve"):
+            for what in ("vertex-values-too-long", "cell-values-too-long", "text-too-long", "object-with-bad-vertices"):
+                if kind == "points" and what == "cell-values-too-long":
+                    continue
+                yield {"kind": kind, "what": what}
+
+    def native_check(self, case):
+        import gc
+
+        from geoh5py.groups import ContainerGroup
+        from geoh5py.objects import Curve, Points
+        from geoh5py.workspace import Workspace
+
+        d = tempfile.mkdtemp()
+        try:
+            path = os.path.join(d, "r.geoh5")
+            with Workspace.create(path) as ws:
+                g = ContainerGroup.create(ws, name="g")
+                cls = Points if case["kind"] == "points" else Curve
+                o = cls.create(ws, name="o", vertices=np.arange(15.0).reshape(5, 3), parent=g)
+                o.add_data({"good": {"values": np.arange(5.0)}})
+                before = (sorted(c.name for c in g.children), sorted(c.name for c in o.children))
+                try:
+                    if case["what"] == "vertex-values-too-long":
+                        o.add_data({"bad": {"values": np.arange(9.0), "association": "VERTEX"}})
+                    elif case["what"] == "cell-values-too-long":
+                        o.add_data({"bad": {"values": np.arange(9.0), "association": "CELL"}})
+                    elif case["what"] == "text-too-long":
+                        o.add_data({"bad": {"values": np.array([f"t{i}" for i in range(9)]), "association": "VERTEX", "type": "text"}})
+                    else:
+                        Points.create(ws, name="bad", parent=g, vertices=np.zeros((3, 2)))
+                    return None if case["what"] == "text-too-long" else f"{case['what']}: accepted ({case})"  # (text length is C08's text clause: not refused today, not claimed)
+                except Exception:
+                    pass
+                gc.collect()
+                after = (sorted(c.name for c in g.children), sorted(c.name for c in o.children))
+                if after != before:
+                    return f"after a refused creation ({case['what']}) the parents list {after}, before the attempt {before} ({case})"
+                del o, g
+            with Workspace(path, mode="r") as ws:
+                g = ws.get_entity("g")[0]
+                later = (sorted(c.name for c in g.children), sorted(c.name for c in ws.get_entity("o")[0].children))
+                if later != before:
+                    return f"a creation that was refused ({case['what']}) is in the file: a later reader finds {later}, the session showed {before} ({case})"
+            return None
+        finally:
+            shutil.rmtree(d, ignore_errors=True)
+
+
+CONTRACTS = CONTRACTS + [RefusedCreationsLeaveNothing]
